@@ -252,3 +252,16 @@ package index
 //@   call[maplookup#0] assert bucket_of_the_keys_digest_width [C03,C07]: key == wrap_u32(len(d.Digest) + 8)
 //@   call[maplookup#0] assume stored_buckets_wellformed: 8 <= value.width && value.width <= 33554432 && value.len * value.width <= len(value.index) && value.len <= 281474976710656
 //@   call[singleWidthIndex.getAll#0] assert the_keys_digest_and_callback [C03,C07]: ref(arg1) == ref(d.Digest) && arg2 == fn
+
+//@ func (*InsertionIndex).Marshal
+//@   implements (github.com/ipld/go-car/v2/index.Index).Marshal
+//@   modifies wn(w)
+//@   call[binary.Write#0] assert count_field [C11]: binsize(arg2) == 8
+//@   closure[0]
+//@     assume tree_holds_record_digests: typeis(i, "v2/index.recordDigest")
+//@     assume own_buffer: ref(w) != ref(&buf)
+//@     invariant counted [C11]: wn(w) - atcall(wn(w)) < 4611686018427387904 ==> l == atcall(l) + (wn(w) - atcall(wn(w)))
+//@     invariant mono [C11,C16]: wn(w) >= atcall(wn(w))
+//@     invariant small_start [C11]: 0 <= atcall(l) && atcall(l) <= 16
+//@     ensures stops_on_error [C16]: result == (err == nil)
+//@   end
